@@ -329,8 +329,8 @@ pub fn run_case(u: &Universe, case: &Value) -> Vec<Value> {
                     let mut other_w = env.clone();
                     other_w.lock = other_w.lock.wrapping_add(7);
                     let tx_other = other_w.tx();
-                    let sp = Spend { tx: &tx2, prevout: &prevout };
-                    let sp_other = Spend { tx: &tx_other, prevout: &prevout };
+                    let sp = Spend::single(&tx2, &prevout);
+                    let sp_other = Spend::single(&tx_other, &prevout);
                     let scope = scope_for(&kind, &d, &script_bytes, prevout.value);
                     for (name, ms) in mutations(&stack, &keys) {
                         let items: Vec<Vec<u8>> = ms.iter().map(|e| render(u, e, &scope, &sp, &sp_other)).collect();
